@@ -247,7 +247,8 @@ func classify(line string, terminated bool) (lineClass, record, string) {
 	}
 	v, err := strconv.ParseInt(dec, 10, 32)
 	if err != nil {
-		return dontCare, record{}, ""
+		// only digits, but no 32-bit time stamp: no record can be right
+		return malformed, record{}, "time-stamp-out-of-range"
 	}
 	msg := make([]byte, len(hx)/2)
 	for k := range msg {
@@ -369,6 +370,48 @@ func mutations(part, parts int) {
 	}
 }
 
+// edges: time stamps written in unusual but purely decimal ways (limits of the
+// 32-bit range and beyond, very long, zero-padded) and long hex parts with
+// every byte value substituted at positions around every power-of-two length.
+func edges(part, parts int) {
+	decs := []string{"2147483647", "2147483648", "-2147483648", "-2147483649", "4294967295", "4294967296", "-4294967296",
+		"9999999999", "-1000000000", "-10000000000", "-21474836480", "-214748364800", "99999999999", "18446744073709551616",
+		"0000000012", "00000000012", "000000000012", "0000000000000012", "-00000000012", "-000000000012", "-0", "00", "-00000000000000000000001"}
+	msgs := [][]byte{{0x90, 0x3C, 0x40}, {0xF8}}
+	n := 0
+	for _, d := range decs {
+		for _, m := range msgs {
+			if n%parts == part {
+				line := fmt.Sprintf("%s %X\n", d, m)
+				judgeStream(line+"17 C0\n", "time stamp written as "+d)
+				judgeStream("17 C0\n"+line, "time stamp written as "+d+", last line")
+				ctx.Add("edge_time_stamps", 1)
+			}
+			n++
+		}
+	}
+	for _, ln := range []int{1, 3, 31, 32, 33, 64, 65, 128, 129, 300} {
+		msg := msgPattern(ln, 1)
+		line := encode(record{12, msg})
+		hexStart := strings.IndexByte(line, ' ') + 1
+		pos := map[int]bool{hexStart: true, hexStart + 1: true, len(line) - 2: true, len(line) - 3: true, hexStart + ln: true}
+		for _, p2 := range []int{15, 16, 31, 32, 63, 64, 65, 66, 127, 128, 129, 255, 256} {
+			if hexStart+p2 < len(line)-1 {
+				pos[hexStart+p2] = true
+			}
+		}
+		for p := range pos {
+			for v := 0; v < 256; v++ {
+				if n%parts == part && line[p] != byte(v) {
+					judgeStream(line[:p]+string([]byte{byte(v)})+line[p+1:]+"17 C0\n", fmt.Sprintf("byte %02X substituted at %d of a %d-byte message line", v, p, ln))
+					ctx.Add("edge_hex_substitutions", 1)
+				}
+				n++
+			}
+		}
+	}
+}
+
 // twoStreams: two independent record streams decoded by two threads that are
 // switched inside their Read calls (every schedule with at most two switches).
 func twoStreams() {
@@ -453,6 +496,7 @@ func main() {
 	ctx.Assume("readers fragment but never return data together with EOF and never return zero bytes")
 	ctx.Jobs("lossless", 16, func(j int) { losslessSpace(j, 16) })
 	ctx.Jobs("mutations", 16, func(j int) { mutations(j, 16) })
+	ctx.Jobs("edges", 16, func(j int) { edges(j, 16) })
 	ctx.Jobs("two-streams", 1, func(int) { twoStreams() })
 	ctx.Sample(map[string]interface{}{"stream": "5 B0ZZ\\n17 C0\\n", "expect": "error for the first line, then the record (17, C0)"})
 	ctx.Sample(map[string]interface{}{"records": "(-2147483648, 90 3C 40) (7, F8)", "fragmentation": "every single and every pair of split points; one byte per call"})
